@@ -40,6 +40,7 @@ type inst struct {
 	name  string
 	tr    *vtrace.T
 	vr    *router.VerifRouter
+	redis *fakeRedis
 	ups   map[string]*fakeUp
 	ports map[string]int
 	cfg   *router.Config
@@ -120,6 +121,13 @@ func newInstDup(name string, o instOpts, dupUp, dupSet bool) (*inst, error) {
 		rulesJS = []map[string]any{}
 	}
 	cfg.Cache.MemSize = o.cacheMem
+	if o.cacheMem > 0 && useRedis != "" { // -redis: the second-level cache, alone or behind the memory cache
+		in.redis = newFakeRedis()
+		cfg.Cache.Redis = in.redis.url()
+		if useRedis == "only" {
+			cfg.Cache.MemSize = 0
+		}
+	}
 	cfg.Cache.MaximumTTL = o.maxTTL
 	if len(o.ipMarker) > 0 {
 		fp := filepath.Join(workdir, name+"-marker.txt")
@@ -217,6 +225,9 @@ func newInstDup(name string, o instOpts, dupUp, dupSet bool) (*inst, error) {
 	}
 	in.vr = vr
 	in.h1 = &http.Client{Timeout: 9 * time.Second}
+	if in.redis != nil {
+		time.Sleep(1300 * time.Millisecond) // the proxy uses the server after its first successful ping (1 s tick)
+	}
 	return in, nil
 }
 
@@ -226,6 +237,10 @@ func (in *inst) close() {
 	}
 	for _, u := range in.ups {
 		u.close()
+	}
+	if in.redis != nil {
+		in.tr.Emit("note", "what", "redis", "sets", in.redis.sets.Load(), "gets", in.redis.gets.Load(), "hits", in.redis.hits.Load())
+		in.redis.close()
 	}
 	instMu.Lock()
 	for i, x := range insts {
@@ -288,6 +303,8 @@ func tokOfMsg(m *dnsmsg.Msg) int {
 }
 
 var own *vtrace.Own
+
+var useRedis string // "", "only", "both"
 
 var stormOn atomic.Bool
 var stormAddr = netip.MustParseAddr("127.0.9.9")
